@@ -382,7 +382,7 @@ EVIDENCE = {
         'bounds x default value x num_keypoints 2-4 x both modes x both reductions, and on the config helpers for small data '
         'sets. Nothing here is counted as proved. One modular obligation set is parametric rather than enumerated (case '
         'forwarding): compute_feature_keypoints is run with OPAQUE data and weight tokens against a recorder in place of '
-        'compute_keypoints - it calls it once per feature with that feature's data, the given example weights / reduction and '
+        'compute_keypoints - it calls it once per feature with the data of that feature, the given example weights / reduction and '
         'the options of the feature config, and stores the result: whatever holds for compute_keypoints then holds for the '
         'configs the helper fills, for every data set.'),
     'rule': 'one evaluation = one (array, weights, options) call of the real function with all postconditions; non-trivial = '
